@@ -1283,7 +1283,10 @@ def run(ctx, out, replay=None):
                 "(branch lengths 9, 10, 15, 16, 17, 31, 32, 33 and short ones; combs with teeth of distinct heights, ramps, "
                 "blocks up to 33 wide, single arms = long L/T/plus shapes, full sides) then left alone or perturbed (hole "
                 "in a branch, tip removed, cell in a corner quadrant, cell beside a branch, trunk cell removed, random "
-                "flips, far cell), half of them transposed; matrices as TEXT with every separator str.split accepts, "
+                "flips, far cell), half of them transposed; the same with sides up to 70 and branch lengths 63, 64, 65; thin shapes "
+                "with one arm of 63, 64, 65, 100, 127, 128, 129, 255, 256, 257 cells (tip / inner cell removed, cell beside) in the "
+                "four orientations; part of the large and random grids on a pre-exercised object (instances listed, printed, "
+                "listed again); matrices as TEXT with every separator str.split accepts, "
                 "leading/trailing/multiple separators, non-binary characters; random simple orthogonal single-trunk "
                 "polygons and polygons traced from grid shapes (also not single-trunk: refusal expected), up to 24x24 "
                 "cells, in every input form (Point with floats / ints, list of ndarray rows, 2-D ndarray of float64 / "
